@@ -1,1 +1,141 @@
-/- C01 — property theorems (stub: the slice is not built yet). -/
+import GB.C01.Trace
+/-
+  C01 — forwarded calls deliver exactly the messages and final status exchanged.
+
+  All theorems quantify over every RPC kind `p`, every message type `M` and error type `E`, and every
+  run `Run p tr s` of the Forward LTS (GB/C01/Forward.lean): every behaviour of the client and of the
+  target (any result may be returned to any pending call) and every interleaving of the three
+  goroutines. The projections `incReceived/outSent/outReceived/incSent` of the trace are what the
+  client and the target observe at the four interface points. `M` is abstract, so the equalities are
+  on the message values themselves (nothing altered).
+-/
+set_option linter.unusedSectionVars false
+set_option linter.unusedVariables false
+open GB.Fwd
+
+variable {M E : Type} [DecidableEq M] [DecidableEq E]
+
+/-- Requests: what Forward hands to the target is, in order, a prefix of what the client handed to
+    Forward (nothing duplicated, reordered, invented; at most the message in flight is missing). -/
+theorem C01_req_prefix (p : Params) (tr : List (Label M E)) (s : State M E) (h : Run p tr s) :
+    outSent tr <+: incReceived tr := by
+  have g := h.ginv.req
+  rw [h.tracks.incRecv, h.tracks.outSent] at g
+  rw [g, List.append_assoc]
+  exact List.prefix_append _ _
+
+/-- Responses: what Forward hands to the client is a prefix of what the target produced. -/
+theorem C01_resp_prefix (p : Params) (tr : List (Label M E)) (s : State M E) (h : Run p tr s) :
+    incSent tr <+: outReceived tr := by
+  have g := h.ginv.resp
+  rw [h.tracks.outRecv, h.tracks.incSent] at g
+  rw [g, List.append_assoc]
+  exact List.prefix_append _ _
+
+/-- A non-client-streaming method never carries more than one request to the target. -/
+theorem C01_req_unary (p : Params) (tr : List (Label M E)) (s : State M E) (h : Run p tr s)
+    (hu : p.cs = false) : (outSent tr).length ≤ 1 := by
+  have g := h.ginv.req_u1 hu
+  rwa [h.tracks.outSent] at g
+
+/-- A non-server-streaming method never carries more than one response to the client. -/
+theorem C01_resp_unary (p : Params) (tr : List (Label M E)) (s : State M E) (h : Run p tr s)
+    (hu : p.ss = false) : (incSent tr).length ≤ 1 := by
+  have g := h.ginv.resp_u1 hu
+  rwa [h.tracks.incSent] at g
+
+/-- Once the request pump has ended (client half-closed, or a failure), every message the client handed
+    over has been handed to the target: nothing is dropped at the end of the request stream. -/
+theorem C01_req_complete (p : Params) (tr : List (Label M E)) (s : State M E) (h : Run p tr s)
+    (hcs : p.cs = true) (hx : s.i2o = .exited) : outSent tr = incReceived tr := by
+  have g := h.ginv.req
+  have hl := h.ginv.lost_cs hcs
+  have hp : s.main.pre = false := by
+    cases hpre : s.main.pre with
+    | false => rfl
+    | true => have := h.sinv.pre_i hpre; rw [hx] at this; cases this
+  rw [h.tracks.incRecv, h.tracks.outSent, hl, hx, MPc.carry_of_not_pre _ hp] at g
+  simpa using g.symm
+
+/-- Once the response pump has ended, every response of a server-streaming target has been handed to the
+    client, in order: nothing is dropped before the final status. -/
+theorem C01_resp_complete (p : Params) (tr : List (Label M E)) (s : State M E) (h : Run p tr s)
+    (hss : p.ss = true) (hx : s.o2i.gone = true) : incSent tr = outReceived tr := by
+  have g := h.ginv.resp
+  have hd := h.ginv.drop_ss hss
+  have hc : s.o2i.carry = [] := by
+    cases ho : s.o2i <;> simp_all
+  rw [h.tracks.outRecv, h.tracks.incSent, hd, hc] at g
+  simpa using g.symm
+
+/-- When Forward has returned, both directions are complete (for the streaming directions; the unary
+    directions are covered by `C01_unary_response` below). -/
+theorem C01_done_delivered (p : Params) (tr : List (Label M E)) (s : State M E) (h : Run p tr s)
+    (hd : isDone s = true) :
+    (p.ss = true → incSent tr = outReceived tr) ∧
+    (p.cs = true → s.i2o = .exited → outSent tr = incReceived tr) := by
+  have hg : pumpsGone s = true := by
+    apply h.sinv.done_gone
+    unfold isDone at hd
+    cases hm : s.main <;> simp_all
+  simp only [pumpsGone, Bool.and_eq_true] at hg
+  exact ⟨fun hss => C01_resp_complete p tr s h hss hg.2, fun hcs hx => C01_req_complete p tr s h hcs hx⟩
+
+/-- Unary response: the single response the client gets is the FIRST message the target produced; what
+    is not forwarded is only a second message of a misbehaving target or a message superseded by a
+    non-OK status (`gDropped`). -/
+theorem C01_unary_response (p : Params) (tr : List (Label M E)) (s : State M E) (h : Run p tr s)
+    (hx : s.o2i = .exited) : outReceived tr = incSent tr ++ s.gDropped := by
+  have g := h.ginv.resp
+  rw [h.tracks.outRecv, h.tracks.incSent, hx] at g
+  simpa using g
+
+/-- A half-close is never lost (client-streaming): once EOF ended the request direction
+    (Incoming.Recv or outgoing.Send returned EOF), CloseSend has been called on the outgoing stream, or
+    calling it is the very next action of the main goroutine, or the EOF still waits in `i2oErrCh`
+    (where the main loop can take it at any time, see `C01_halfclose_enabled`). -/
+theorem C01_halfclose (p : Params) (tr : List (Label M E)) (s : State M E) (h : Run p tr s)
+    (hcs : p.cs = true) (hh : halfClosed tr = true) :
+    closeSendCalled tr = true ∨ s.i2oCh = some .eof ∨ s.main = .loopCloseSend := by
+  have g := h.ginv.half
+  rw [h.half hcs, h.tracks.closeSend] at g
+  exact g hh
+
+/-- …and the main loop can always take a waiting EOF and then calls CloseSend. -/
+theorem C01_halfclose_enabled (p : Params) (s : State M E) (hm : s.main = .loop) (hc : s.i2oCh = some .eof) :
+    ∃ s1 s2, step p s .tauSelI2O = some s1 ∧ s1.main = .loopCloseSend ∧
+      step p s1 .outCloseSend = some s2 ∧ s2.gCloseSend = true := by
+  have h1 : ∃ s1, step p s .tauSelI2O = some s1 ∧ s1.main = .loopCloseSend := by
+    simp [step, stepCore, hm, hc]
+  obtain ⟨s1, e1, m1⟩ := h1
+  have h2 : ∃ s2, step p s1 .outCloseSend = some s2 ∧ s2.gCloseSend = true := by
+    simp [step, stepCore, m1]
+  obtain ⟨s2, e2, c2⟩ := h2
+  exact ⟨s1, s2, e1, m1, e2, c2⟩
+
+/-! ### Non-vacuity: a concrete bidirectional run — 3 requests, 2 responses, status error 42 -/
+
+def C01_example_trace : List (Label Nat Nat) :=
+  [.outStreamCall, .outStreamRet .ok, .outRecvCall, .incRecvCall, .incRecvRet (.msg 1), .outSendCall 1,
+   .outRecvRet (.msg 7), .outHeader, .outSendRet .ok, .incRecvCall, .incSetHeader, .incSendCall 7,
+   .incRecvRet (.msg 2), .outSendCall 2, .incSendRet .ok, .outRecvCall, .outSendRet .ok, .incRecvCall,
+   .incRecvRet (.msg 3), .outSendCall 3, .outSendRet .ok, .outRecvRet (.msg 8), .incSendCall 8, .incSendRet .ok,
+   .incRecvCall, .incRecvRet .eof, .tauSelI2O, .outCloseSend, .outRecvCall, .outRecvRet (.err 42),
+   .outTrailer, .incSetTrailer, .tauSelO2I, .outClose, .tauCancel, .ret (some (.peer 42))]
+
+def C01_bidi : Params := { cs := true, ss := true, incAware := true, outAware := true }
+
+theorem C01_example_run :
+    (GB.LTS.run (step C01_bidi) (init Nat Nat) C01_example_trace).map
+      (fun s => (returned s, s.gOutSent, s.gIncSent)) = some (some (some (.peer 42)), [1, 2, 3], [7, 8]) := by
+  decide
+
+example : ∃ s, Run C01_bidi C01_example_trace s ∧ isDone s = true := by
+  cases h : GB.LTS.run (step C01_bidi) (init Nat Nat) C01_example_trace with
+  | none => have := C01_example_run; rw [h] at this; cases this
+  | some s =>
+    refine ⟨s, run_Run _ _ _ h, ?_⟩
+    have := C01_example_run; rw [h] at this
+    simp only [Option.map_some, Option.some.injEq, Prod.mk.injEq] at this
+    unfold isDone; unfold returned at this
+    cases hm : s.main <;> simp_all
